@@ -142,8 +142,12 @@ def join_blocks(
     module = block1.module
     assert ir and module and block2.section
 
+    # If block1 is empty, labels at the start of block2 stay at the start and
+    # labels at the end of block2 stay at the end of the joined block.
+    # Otherwise block2 can only have labels at its end (see are_joinable) and
+    # they stay at the end.
     cache.reference_cache.retarget_references(
-        block2, block1, bool(block1.size)
+        block2, block1, True if block1.size else None
     )
 
     if isinstance(block2, gtirb.CodeBlock):
